@@ -482,6 +482,13 @@ UNITS['U38k'] = dict(
                  'offset = 1 - min as passed by compile_grouping_key / try_bitpacking'],
     not_covered=['string and float keys', 'descending merges'])
 
+UNITS['U39n'] = dict(
+    kind='native', crate='kani/U39n', bin='vx_u39n', needs_lock=True, timeout_s=900,
+    pool='105 event buffers: every ColumnData representation (Empty, Dense, Sparse, I64, SparseI64, String, Mixed; empty and boundary contents: NaN payloads, -0.0, subnormals, i64::MIN/MAX, u64::MAX row indices, empty / multi-byte / 300-byte strings) under eight table names (empty, spaces, slashes, dots, non-ASCII, case pairs), alone and combined',
+    title='BOUNDED enumeration (native, not a proof): locustdb-serialization EventBuffer::serialize / deserialize (the unmodified sub-crate, real Cap\'n Proto) - the WAL payload reads back as written, bit-exactly',
+    assumptions=['Cap\'n Proto and HashMap iteration are outside both verifiers; the sub-crate is compiled natively and run over a stated pool (bounded stand-in, reported under coverage.bounded)'],
+    not_covered=['buffers outside the pool', 'the envelope around the payload (U14v)', 'partition files and the catalogue'])
+
 UNITS['U24k'] = dict(
     kind='kani', crate='kani/U24', timeout_s=600, mem_gb=12, jobs=2,
     title='BOUNDED (names <= 2 ASCII characters): storage.rs sanitize_table_name - cleaning steps after lower-casing (slice) and the verbatim-or-digest decision (expression slice)',
@@ -492,9 +499,9 @@ UNITS['U24k'] = dict(
     not_covered=['names longer than 2 characters, non-ASCII names', 'the `-<name>-<digest>` formatting', 'truncation to 189 bytes'])
 
 PROPS = {
-    'C14': dict(level='proof', units=['U14v', 'U14b', 'U30k', 'U18k'],
+    'C14': dict(level='proof', units=['U14v', 'U14b', 'U30k', 'U18k', 'U39n'],
                 level_text='Verus proof that the envelope check accepts a file iff it is intact (for all byte strings: truncated, extended, flipped version / length / payload under A-sha), and that store writes exactly the envelope; complete Kani proofs that the codec-op and element-type tables of the partition file (de)serialiser agree and that the catalogue cursor reads back as written',
-                level_note='the "decodes to exactly the logical content" half of C14 is decided for the envelope, the partition file\'s codec description and the catalogue cursor only; data sections, column metadata, WAL segments and the Cap\'n Proto transport itself (A-capnp) are not covered',
+                level_note='the "decodes to exactly the logical content" half of C14 is decided for the envelope, the partition file\'s codec description and the catalogue cursor only; data sections, column metadata and the Cap\'n Proto transport itself (A-capnp) are not covered; the WAL payload is covered only by a bounded native enumeration (U39n)',
                 technique='contract-based deductive verification (Verus; Kani complete for the byte-conversion assumption) of extracted functions',
                 assumptions=[], not_covered=['capnp encode/decode of WAL segments, data sections and the catalogue partitions', 'FileBlobWriter']),
     'C12': dict(level='other', units=['U13k', 'U21k', 'U21n', 'U19', 'U27k'],
@@ -519,7 +526,7 @@ PROPS = {
                 level_note='catalogue tables, lazy column_names initialisation, SELECT * expansion and the HashMap iteration around the per-column code are not covered',
                 technique='contract-based deductive verification (Verus) of extracted functions and statement slices',
                 assumptions=[], not_covered=['catalogue (_meta_tables, _meta_columns_*)', 'compaction column list', 'SELECT * expansion']),
-    'C08': dict(level='proof', units=['U18k', 'U02', 'U24k'],
+    'C08': dict(level='proof', units=['U18k', 'U02', 'U24k', 'U39n'],
                 level_text='complete Kani proofs of the WAL cursor primitives, of the replay-or-delete classification at recovery and of the cursor field written to / read from the catalogue; Verus proof that compaction appends every row of every input partition once, in order (compact_append slice); bounded check that two table names share a directory only if identical (narrow: primitives, not the protocol)',
                 level_note='the check catches a broken cursor primitive or classification, not a broken ordering of persist / advance / delete across threads; history composition is not covered',
                 technique='contract-based deductive verification (Kani complete harnesses) of extracted functions and statement slices',
